@@ -12,6 +12,7 @@ import BezierVerif.Model.Fit
 import BezierVerif.Model.Clip
 import BezierVerif.Model.Lookup
 import BezierVerif.Model.Inter
+import BezierVerif.Model.Winding
 import BezierVerif.Gen.Box
 
 namespace ModelDriver
@@ -61,6 +62,11 @@ def mindistNode (n m W : Nat) (eps : ℚ) (best : Option ℚ) (umin umax vmin vm
   | none => "none"
   | some (.ret t, b) => "ret " ++ showRats [t.1, t.2.1, t.2.2] ++ " " ++ showOptRat b
   | some (.split nu nv, b) => "split " ++ showRats [nu, nv] ++ " " ++ showOptRat b
+
+/-- split a token list at every occurrence of `sep` -/
+def splitTok (sep : String) (l : List String) : List (List String) :=
+  let (cur, acc) := l.foldr (fun tok (st : List String × List (List String)) => if tok = sep then ([], st.1 :: st.2) else (tok :: st.1, st.2)) ([], [])
+  cur :: acc
 
 /-- segments on the wire: `L x0 y0 x1 y1`, `Q` + 6 numbers, `C` + 8 numbers -/
 partial def parseSegs : List String → Option (List (Seg ℚ) × List String)
@@ -364,6 +370,34 @@ def handle (name : String) (args : List String) : String :=
       | some cardano => "ok " ++ showRats (Inter.curveLineT ratSqrt al cardano)
       | none => "bad-args"
     | _ => "bad-args"
+  | "winding" =>
+    -- winding <own|last> px py lx rx | seg ; alignedL ; cardanoL... ; alignedR ; cardanoR... | seg ; ...
+    match splitTok "|" args with
+    | hd :: groups =>
+      match hd with
+      | [wh, px, py, lx, rx] =>
+        match parseRat px, parseRat py, parseRat lx, parseRat rx with
+        | some px, some py, some lx, some rx =>
+          let parsed : Option (List (Seg ℚ × List (ℚ × ℚ) × List (ℚ × ℚ))) := groups.mapM fun g =>
+            match splitTok ";" g with
+            | [sg, al, cl, ar, cr] =>
+              match parseSegs sg, parseSegs al, cl.mapM parseRat, parseSegs ar, cr.mapM parseRat with
+              | some ([s], []), some ([al], []), some cl, some ([ar], []), some cr =>
+                some (s, Winding.segHits ratSqrt s lx px py al cl, Winding.segHits ratSqrt s rx px py ar cr)
+              | _, _, _, _, _ => none
+            | _ => none
+          match parsed with
+          | some rows =>
+            let segs := rows.map (·.1)
+            let which : Winding.Hit ℚ → Nat := if wh = "last" then Winding.lastSeg segs.length else Winding.own
+            let w := Winding.windingNumber which segs (rows.map (·.2.1)) (rows.map (·.2.2))
+            let nl := (Winding.collect 0 (segs.zip (rows.map (·.2.1))) []).length
+            let nr := (Winding.collect 0 (segs.zip (rows.map (·.2.2))) []).length
+            s!"ok {w} {nl} {nr}"
+          | none => "bad-args"
+        | _, _, _, _ => "bad-args"
+      | _ => "bad-args"
+    | [] => "bad-args"
   | _ => "nomodel"
 
 end ModelDriver
